@@ -266,6 +266,8 @@ func findNextNodeAfterComment(file *ast.File, commentPos token.Pos) token.Pos {
 
 	// Comment is inside this declaration - find the next node after comment
 	var nextPos = token.NoPos
+	// The scope covers that whole node (e.g. the entire following statement), so remember its end
+	var nextEnd = token.NoPos
 
 	ast.Inspect(decl, func(n ast.Node) bool {
 		if n == nil {
@@ -280,6 +282,7 @@ func findNextNodeAfterComment(file *ast.File, commentPos token.Pos) token.Pos {
 		// Found a node after comment
 		if nextPos == token.NoPos || n.Pos() < nextPos {
 			nextPos = n.Pos()
+			nextEnd = n.End()
 			// Stop searching once we found the first node
 			return false
 		}
@@ -287,5 +290,5 @@ func findNextNodeAfterComment(file *ast.File, commentPos token.Pos) token.Pos {
 		return true
 	})
 
-	return nextPos
+	return nextEnd
 }
